@@ -339,4 +339,10 @@ theorem decodeNewtypeVariant_encode {α : Type} (variant : String) (value : Byte
   simp only [field, List.cons_append, List.append_assoc, if_true, parseStringValue_key, parseColon_colon, hv]
   simp [skipWs, isWs]
 
+theorem keys_escape3 :
+    keyTransfer = escape (strBytes "transfer") ∧ keyTransferFrom = escape (strBytes "transfer_from") ∧
+    keyRecipient = escape (strBytes "recipient") ∧ keyOwner = escape (strBytes "owner") ∧
+    keyAmount = escape (strBytes "amount") := by
+  decide
+
 end CwPlus.MsgWire
